@@ -512,6 +512,18 @@ STATS = {'z3_queries': 0, 'z3_s': 0.0, 'cvc5_queries': 0, 'cvc5_s': 0.0}
 _RL = [0, None]     # [cumulative rlimit count seen last, consumption of the last check]
 
 
+HEARTBEAT = [None]     # set by the driver's worker: called with the wall-clock cap (s) of the check that is about to start
+
+
+def beat(cap_s):
+    h = HEARTBEAT[0]
+    if h is not None:
+        try:
+            h(float(cap_s))
+        except Exception:
+            pass
+
+
 def check_trusted(make_solver, timeout_ms):
     """`solver.check()` under a timeout, guarded against a cancellation race of the installed z3
     (5.1.0): a check that is being cancelled by its timeout timer occasionally answers `unsat`
@@ -523,6 +535,7 @@ def check_trusted(make_solver, timeout_ms):
     Returns (result, solver, seconds)."""
     s = make_solver()
     s.set('timeout', int(timeout_ms))
+    beat(timeout_ms / 1000.0)
     t0 = time.time()
     r = s.check()
     dt = time.time() - t0
@@ -536,6 +549,7 @@ def check_trusted(make_solver, timeout_ms):
         STATS['late_unsat_rechecks'] = STATS.get('late_unsat_rechecks', 0) + 1
         s2 = make_solver()
         s2.set('timeout', int(4 * timeout_ms))
+        beat(4 * timeout_ms / 1000.0)
         t1 = time.time()
         r2 = s2.check()
         dt2 = time.time() - t1
@@ -691,6 +705,7 @@ def solve_ground(assumptions, goal, timeout_ms=10000):
         s0.add(a)
     s0.add(z3.Not(goal))
     t0 = time.time()
+    beat(60.0)
     r0 = s0.check()
     dt0 = time.time() - t0
     if r0 == z3.unsat and dt0 > 0.6 * timeout_ms / 1000.0:
